@@ -493,6 +493,8 @@ class RadialProfile(ProfileBase):
         The raw data profile as a 1D `~numpy.ndarray`.
         """
         data_profile = self._data_profile[1]
+        if self.unit is not None:
+            data_profile = data_profile << self.unit
         if self.normalization_value != 1.0:
             # the profile was normalized before data_profile was first
             # evaluated; normalize and unnormalize rescale only cached
